@@ -153,4 +153,4 @@ func vfC15RunCfg(c *vt.Ctx, s vfC15CfgScenario) {
 	vfC15UseConfig(c, cfg)
 }
 
-func TestVerifC15DaemonConfig(t *testing.T) { vt.Run(t, vfC15GenCfg, vfC15RunCfg) }
+func TestVerifC15DaemonConfig(t *testing.T) { vt.Run(t, vfC15GenCfg, g.NoPanic(vfC15RunCfg)) }
